@@ -370,8 +370,13 @@ impl<F: Field> Circuit<F> {
                     // witness 0 may hold Const(0); treating it as c would set c_state = reader and
                     // duplicate WitnessChecks reads with b when assert_zero connects the sub result
                     // to ExprId::ZERO (b aliases witness 0).
+                    // Within one row a slot gets at most one creator: if `a` creates the slot,
+                    // a `c` (or `b`) naming the same slot reads it (e.g. `x * x` or
+                    // `x * x + x` with `x` a private input seen for the first time).
+                    let a_creates = a_state == F::TWO;
                     let (c_wid, c_state) = c.as_ref().map_or((WitnessId(0), F::ZERO), |w| {
-                        let c_defined = (w.0 as usize) < defined.len() && defined[w.0 as usize];
+                        let c_defined = (w.0 as usize) < defined.len() && defined[w.0 as usize]
+                            || a_creates && w.0 == a.0;
                         let c_aliased_by_out = !out_already_defined && w.0 == out.0;
                         let c_state = if c_defined {
                             F::ONE // reader
@@ -388,6 +393,9 @@ impl<F: Field> Circuit<F> {
 
                     // b and out creator flags (now independent).
                     // Private inputs can be b-creators even in the forward case.
+                    let b_created_in_row =
+                        a_creates && b.0 == a.0 || c_state == F::TWO && b.0 == c_wid.0;
+                    let b_already_defined = b_already_defined || b_created_in_row;
                     let b_is_private_creator =
                         !b_already_defined && private_input_wids.contains(&b.0);
                     // A hint output in the `out` slot is a backward op: the hint value is given,
